@@ -69,34 +69,51 @@ def seeds(target: str) -> list[bytes]:
     return [b""]
 
 
-def units(tier: str) -> list:
-    return [[t, shard, RUNS[tier]] for t in TARGETS for shard in range(SHARDS[tier])]
+# the targets whose oracle holds an assertion of each property (vlib/fuzz_oracles.py names the property of every assertion)
+TARGETS_OF = {
+    "C19": TARGETS,
+    "C05": ["block", "keys_sigs", "message", "psbt", "script", "tx"],
+    "C06": ["text_codecs"],
+    "C14": ["descriptor"],
+    "C15": ["miniscript", "miniscript_script"],
+}
 
 
-def name_root_cause(target: str, data: bytes) -> tuple[str, str] | None:
-    """Re-run the oracle in-process: (signature, detail) of what it raises, None if it passes."""
+def units(tier: str, prop: str = "C19") -> list:
+    return [[t, shard, RUNS[tier]] for t in TARGETS_OF[prop] for shard in range(SHARDS[tier])]
+
+
+def name_root_cause(target: str, data: bytes, prop: str = "C19") -> tuple[str, str] | None:
+    """Re-run the oracle in-process, asking for the assertions of one property: (signature, detail) of what it raises, None if it passes.
+    An exception outside the library's classes is C19's to report; under another property it is not a finding of that property."""
     from vlib import determinism
     from vlib.runner import _through_btclib
 
     determinism.reset([target, data.hex()])
+    before = fuzz_oracles.ACTIVE
+    fuzz_oracles.ACTIVE = {prop}
     try:
         fuzz_oracles.TARGETS[target](data)
     except fuzz_oracles.FuzzViolation as v:
         return f"fuzz:{v.signature}", v.detail
     except RecursionError as e:
-        return f"fuzz:{target}:crash:RecursionError", repr(e)[:300]
+        return (f"fuzz:{target}:crash:RecursionError", repr(e)[:300]) if prop == "C19" else None
     except Exception as e:  # noqa: BLE001  bucketed by type and innermost library frame, as the runner does
+        if prop != "C19":
+            return None
         frame = _through_btclib(e.__traceback__)
         tb = "".join(traceback.format_exception(type(e), e, e.__traceback__))[-1500:]
         return f"fuzz:{target}:crash:{type(e).__name__}@{frame}", tb
+    finally:
+        fuzz_oracles.ACTIVE = before
     return None
 
 
-def run_unit(unit, col) -> None:
+def run_unit(unit, col, prop: str = "C19") -> None:
     target = unit[0]
     if unit[1] == "input":
         data = bytes.fromhex(unit[2])
-        found = name_root_cause(target, data)
+        found = name_root_cause(target, data, prop)
         if found:
             col.fail(found[0], {"unit": unit}, found[1])
         else:
@@ -125,7 +142,7 @@ def run_unit(unit, col) -> None:
         tier_time = MAX_TIME["quick" if runs <= RUNS["quick"] else "thorough"]
         cmd = ["/venv/bin/python", os.path.join(VERIF, "fuzz", "target.py"), target, corpus, f"-runs={runs}", f"-seed={seed}", f"-max_total_time={tier_time}",
                f"-artifact_prefix={crashes}/", "-max_len=4096", "-print_final_stats=1", "-timeout=30", "-rss_limit_mb=4096"]
-        env = dict(os.environ, PYTHONHASHSEED="0")
+        env = dict(os.environ, PYTHONHASHSEED="0", FUZZ_PROPS=prop)
         r = subprocess.run(cmd, capture_output=True, text=True, env=env, timeout=tier_time + 300)
         out = r.stderr + r.stdout
         m = re.search(r"stat::number_of_executed_units:\s*(\d+)", out)
@@ -135,14 +152,17 @@ def run_unit(unit, col) -> None:
         for a in artifacts:
             with open(os.path.join(crashes, a), "rb") as fh:
                 data = fh.read()
-            found = name_root_cause(target, data)
             kind = a.split("-")[0]
+            if kind != "crash":
+                # libFuzzer also saves slow units, time-outs and out-of-memory inputs under the prefix: none of them is a verdict of the oracle
+                col.bulk(0, 0, tags={f"fuzz:{target}:{kind}-inconclusive": 1})
+                continue
+            found = name_root_cause(target, data, prop)
             if found:
                 col.fail(found[0], {"unit": [target, "input", data.hex()]}, found[1])
-            elif kind in ("timeout", "oom"):
-                col.bulk(0, 0, tags={f"fuzz:{target}:{kind}-inconclusive": 1})
             else:
-                col.fail(f"fuzz:{target}:crash-that-does-not-replay", {"unit": [target, "input", data.hex()]}, out[-800:])
+                # what does not replay is not reported (the runner's rule for every other sub-check)
+                col.bulk(0, 0, tags={f"fuzz:{target}:crash-that-does-not-replay": 1})
         if not artifacts and r.returncode not in (0,):
             col.harness_errors.append(f"fuzz target {target} exited {r.returncode}: {out[-400:]}")
         col.bulk(max(executed, 1), new_units, {"target": target, "executions": executed, "corpus_units_added": new_units, "libfuzzer_seed": seed}, {f"target={target}": 1, "campaigns": 1})
